@@ -183,3 +183,32 @@ def run(repo: Repo, chk: Check) -> None:
                {'first': [a[:120] for a, _ in rets][:1], 'second': [b[:120] for _, b in rets][:1], 'outcomes': [p.outcome for p in res]},
                what=f'OperationGroup.{fn.name}: {label} still returns a value computed from the earlier state ({[b[:100] for _, b in rets][:1]}): '
                     'the signature / operation hash no longer belongs to the bytes that are injected')
+
+    # ---- 6 a derived group takes the fields it is given: sign() hands the fresh signature to _spawn, fill() the branch / protocol / chain id ------
+    chk.set_clause('C23.6')
+    from ..absint import ClassRef as _ClassRef
+    sp = repo.find_method(G, '_spawn')
+    if sp is None:
+        raise AnalysisError('C23: OperationGroup has no _spawn')
+    ctor_fields = [a.arg for a in repo.find_method(G, '__init__').node.args.args[1:] if a.arg != 'context']
+    nsp = 0
+    for f in ctor_fields:
+        built: List[Dict[str, Any]] = []
+
+        class SpawnHooks(Hooks):
+            def call(self, it, callee, args, kwargs, node):
+                if isinstance(callee, _ClassRef):
+                    built.append(dict(kwargs))
+                    return Sym('derived group')
+                return NotImplemented
+
+        recv = Obj(G, {k: (Sym('old_' + k) if k != 'contents' else [Sym('old_content')]) for k in ctor_fields} | {'context': Sym('context')})
+        res = Interp(repo, SpawnHooks(), max_depth=2).run_method(sp, lambda recv=recv, f=f: (recv, [], {f: Sym('fresh')}))
+        if not built or any(p.outcome != 'return' for p in res):
+            raise AnalysisError(f'C23: _spawn({f}=...) does not reduce to a constructor call: {[p.outcome for p in res]}')
+        nsp += 1
+        got = sorted({vrepr(b.get(f)) for b in built})
+        chk.ob('R-FLOW', sp.qualname, got == ['$fresh'], f'_spawn({f}=x) builds the group with {f}=x', sp.loc, {'built_with': got},
+               what=f'OperationGroup._spawn({f}=fresh value) builds the derived group with {f} = {got}: the value handed over does not replace the one inherited '
+                    '(a re-signed group keeps the stale signature, so signature and hash no longer belong to the bytes that are injected)')
+    chk.minimum('_spawn fields', nsp, 6)
